@@ -311,25 +311,6 @@ Proof.
   apply (K ss); auto.
 Qed.
 
-(* ---- well-formedness facts about compiled queries used below (DESIGN.md A.4 #4 and #8) ---- *)
-Fixpoint outputs_local (c : ir_component) {struct c} : bool :=
-  match c with
-  | mkComp _ vs ss outs =>
-      forallb (fun o => match find_vertex vs (cf_vid (snd o)) with Some _ => true | None => false end) outs
-      && (fix go (ss : list step) : bool :=
-            match ss with
-            | [] => true
-            | SEdge _ :: r => go r
-            | SFold _ sub :: r => outputs_local sub && go r
-            end) ss
-  end.
-
-Fixpoint nodupN (l : list N) : bool :=
-  match l with
-  | [] => true
-  | x :: r => negb (memN' x r) && nodupN r
-  end.
-
 Lemma memN'_In x l : memN' x l = true <-> In x l.
 Proof.
   unfold memN'. rewrite existsb_exists. split.
@@ -344,9 +325,6 @@ Proof.
   intros Hin. apply memN'_In in Hin. now rewrite Hin in H1.
 Qed.
 
-(* the boolean form, evaluated on every generated query by the correspondence run *)
-Definition wf_hints_query (q : ir_query) : bool := nodupN (all_vids (q_comp q)) && outputs_local (q_comp q).
-
 Lemma outputs_local_sub c top : subcomp c top -> outputs_local top = true -> outputs_local c = true.
 Proof.
   induction 1 as [|c root vs ss outs h sub Hin Hsub IH]; [auto|].
@@ -355,31 +333,6 @@ Proof.
   - destruct Hin as [E|Hin]; [discriminate|auto].
   - apply andb_prop in H. destruct H as [H1 H2]. destruct Hin as [E|Hin]; [injection E as -> ->; assumption|auto].
 Qed.
-
-(* ---- the two known classes (F11), as boolean predicates on the query ---- *)
-Fixpoint folds_with_parent (c : ir_component) {struct c} : list (list ir_vertex * fold_hdr) :=
-  match c with
-  | mkComp _ vs ss _ =>
-      (fix go (ss : list step) : list (list ir_vertex * fold_hdr) :=
-         match ss with
-         | [] => []
-         | SEdge _ :: r => go r
-         | SFold h sub :: r => (vs, h) :: folds_with_parent sub ++ go r
-         end) ss
-  end.
-
-Definition unlisted (q : ir_query) (r : N * string) : bool := negb (mem_str (snd r) (required_of q (fst r))).
-
-(* K-imported-tag-not-required: some @fold imports a context-field tag whose property
-   required_properties does not list at the tagged vertex *)
-Definition k_imported_tag_not_required (q : ir_query) : bool :=
-  existsb (fun ph => existsb (unlisted q) (import_requests (snd ph))) (folds_with_parent (q_comp q)).
-
-(* K-count-filter-tag-not-required: some fold-count filter has a tag operand (a vertex of the fold's
-   parent component) whose property required_properties does not list at the tagged vertex *)
-Definition k_count_filter_tag_not_required (q : ir_query) : bool :=
-  existsb (fun ph => existsb (unlisted q) (flat_map (fun pf => tag_request (fst ph) (pf_arg pf)) (fo_post (snd ph))))
-          (folds_with_parent (q_comp q)).
 
 Fixpoint folds_with_parent_steps (vs : list ir_vertex) (ss : list step) : list (list ir_vertex * fold_hdr) :=
   match ss with
@@ -415,9 +368,9 @@ Section C05.
 
   Let top := q_comp q.
   Lemma top_unique : vids_unique top.
-  Proof. unfold wf_hints_query in Hwf. apply andb_prop in Hwf. destruct Hwf as [H _]. now apply nodupN_NoDup. Qed.
+  Proof. unfold wf_hints_query in Hwf. apply andb_prop in Hwf. destruct Hwf as [H _]. apply andb_prop in H. destruct H as [H _]. now apply nodupN_NoDup. Qed.
   Lemma top_outputs : outputs_local top = true.
-  Proof. unfold wf_hints_query in Hwf. apply andb_prop in Hwf. now destruct Hwf. Qed.
+  Proof. unfold wf_hints_query in Hwf. apply andb_prop in Hwf. destruct Hwf as [H _]. apply andb_prop in H. now destruct H. Qed.
 
   (* required_properties at a vertex of a sub-component, computed *)
   Lemma required_of_sub c v :
@@ -1230,7 +1183,7 @@ Section SemPrune.
      (non-optional) edge that is not recursive or recurses to depth 1 *)
   Lemma step_edge_prune k vs ss imported e a tov :
     find_vertex vs (e_to e) = Some tov ->
-    e_optional e = false -> (e_rec e = None \/ exists r, e_rec e = Some r /\ r_depth r = 1) ->
+    e_optional e = false -> (e_rec e = None \/ exists r, e_rec e = Some r /\ r_depth r <= 1) ->
     (forall n, k n = false -> enter re g args vs ss imported a tov (Some n) = false) ->
     step_edge re (gP k) args vs ss imported e a = step_edge re g args vs ss imported e a.
   Proof.
@@ -1243,8 +1196,10 @@ Section SemPrune.
     { intros l. rewrite !flat_map_map. apply flat_map_dead. intros n Hn. unfold F. now rewrite (Hk n Hn). }
     destruct Hr as [Hr|(r & Hr & Hd)]; rewrite Hr.
     - rewrite Ho. cbn [g_nbrs gP]. cbv iota. rewrite !map_some_match. apply D.
-    - rewrite Hd. change (N.to_nat 1) with 1%nat. cbn [rec_from orb g_nbrs gP].
-      rewrite !flat_map_single. cbn [map flat_map]. f_equal. apply D.
+    - assert (Hd' : r_depth r = 0 \/ r_depth r = 1) by lia. destruct Hd' as [Hd'|Hd']; rewrite Hd'.
+      + reflexivity.
+      + change (N.to_nat 1) with 1%nat. cbn [rec_from orb g_nbrs gP].
+        rewrite !flat_map_single. cbn [map flat_map]. f_equal. apply D.
   Qed.
 
   Lemma step_fold_ext vs ss imported h (f f' : imports -> option vertex -> list asg) G a :
@@ -1362,14 +1317,14 @@ Section SemPrune.
                   (filter (pr_start P) (g_starts g (q_root_name q) (q_root_params q)))).
 
   (* admissibility of a pruner at the sites of one component: a neighbour may be dropped only
-     - on an edge that is not @optional and is either not recursive or recurses to depth 1, when the
+     - on an edge that is not @optional and is either not recursive or recurses to depth <= 1, when the
        neighbour fails the destination vertex' entry test (coercion + filters) for the row at hand;
      - on a fold edge, when the neighbour yields no fold element *)
   Definition admissible_comp (P : pruner) (c : ir_component) : Prop :=
     (forall imported e a n tov,
         In (SEdge e) (c_steps c) -> find_vertex (c_vertices c) (e_to e) = Some tov ->
         pr_edge P (c_vertices c) (c_steps c) imported e a n = false ->
-        e_optional e = false /\ (e_rec e = None \/ exists r, e_rec e = Some r /\ r_depth r = 1) /\
+        e_optional e = false /\ (e_rec e = None \/ exists r, e_rec e = Some r /\ r_depth r <= 1) /\
         enter re g args (c_vertices c) (c_steps c) imported a tov (Some n) = false) /\
     (forall imported h sub a n,
         In (SFold h sub) (c_steps c) ->
@@ -1397,13 +1352,13 @@ Section SemPrune.
       { apply step_edge_keep_all. intros n. destruct (pr_edge P vs ss imported e a n) eqn:K; [reflexivity|].
         destruct (AE imported e a n tov He Ft K) as (C & _). congruence. }
       destruct (e_rec e) as [r|] eqn:Er.
-      + destruct (N.eqb (r_depth r) 1) eqn:Ed.
-        * apply N.eqb_eq in Ed. apply (step_edge_prune _ vs ss imported e a tov Ft Eo).
+      + destruct (N.leb (r_depth r) 1) eqn:Ed.
+        * apply N.leb_le in Ed. apply (step_edge_prune _ vs ss imported e a tov Ft Eo).
           -- right. eauto.
           -- intros n K. now destruct (AE imported e a n tov He Ft K) as (_ & _ & C).
         * apply step_edge_keep_all. intros n. destruct (pr_edge P vs ss imported e a n) eqn:K; [reflexivity|].
           destruct (AE imported e a n tov He Ft K) as (_ & [C|(r' & C & D)] & _); [congruence|].
-          rewrite Er in C. injection C as <-. rewrite D in Ed. discriminate.
+          rewrite Er in C. injection C as <-. apply N.leb_le in D. rewrite D in Ed. discriminate.
       + apply (step_edge_prune _ vs ss imported e a tov Ft Eo); [now left|].
         intros n K. now destruct (AE imported e a n tov He Ft K) as (_ & _ & C).
     - intros h sub a Hf.
@@ -1422,3 +1377,403 @@ Section SemPrune.
     apply flat_map_dead. exact As.
   Qed.
 End SemPrune.
+
+(* ====================================================================================== *)
+(* Part 6: C04 — the pruner built from the hints of destination() is admissible              *)
+(* ====================================================================================== *)
+Lemma fold_roots_ok_here root vs ss outs h sub :
+  fold_roots_ok (mkComp root vs ss outs) = true -> In (SFold h sub) ss ->
+  fo_to h = c_root sub /\ fold_roots_ok sub = true.
+Proof.
+  cbn. induction ss as [|[e|h' sub'] r IH]; cbn; [intros _ []| |].
+  - intros H [E|Hin]; [discriminate|auto].
+  - intros H [E|Hin].
+    + injection E as -> ->. apply andb_prop in H. destruct H as [H _]. apply andb_prop in H. destruct H as [H1 H2].
+      apply N.eqb_eq in H1. auto.
+    + apply andb_prop in H. destruct H as [_ H]. auto.
+Qed.
+
+Lemma fold_roots_ok_sub c top : subcomp c top -> fold_roots_ok top = true -> fold_roots_ok c = true.
+Proof.
+  induction 1 as [|c root vs ss outs h sub Hin Hsub IH]; [auto|].
+  intros H. apply IH. now destruct (fold_roots_ok_here _ _ _ _ _ _ H Hin).
+Qed.
+
+Section HintPruner.
+  Variable re : string -> string -> option bool.
+  Variable g : graph.
+  Variable args : list (string * fv).
+  Variable q : ir_query.
+
+  Hypothesis Hargs : args_wf args.
+  Hypothesis Hwfq : wf_hints_query q = true.
+  (* the data source returns well-formed values ... *)
+  Hypothesis Hgwf : forall ty f n, wf (g_prop g ty f n) = true.
+  (* ... and respects the schema's nullability: a property the query filters at a type where it is
+     non-nullable is not null on vertices that are of (pass the coercion to) that type *)
+  Hypothesis Htyped : forall c vtx f n,
+    subcomp c (q_comp q) -> In vtx (c_vertices c) -> In f (v_filters vtx) -> ty_nullable (vf_fty f) = false ->
+    match v_from vtx with Some from => g_coerce g from (v_type vtx) n = true | None => True end ->
+    fv_is_null (g_prop g (v_type vtx) (vf_field f) n) = false.
+
+  Let top := q_comp q.
+
+  (* null_included flag used when a dynamic hint is resolved (compute_candidate_from_operation: true,
+     resolve_fold_specific_field: false) *)
+  Definition dyn_nr (dv : dynv) : bool :=
+    match dv_field dv with
+    | FRContext _ => true
+    | FRFold ff => match comp_at q (dv_start dv) with Ok comp => ff_root ff <? c_root comp | Panic _ => true end
+    end.
+
+  (* does the produced vertex n agree with every hint of `vi` (static candidates, and dynamic
+     candidates resolved with the tag values `tagval`)?  `>=`-with-tag hints (F10) and ill-formed /
+     panicking resolutions (F17) are not used. *)
+  Definition hint_keeps (vi : vinfo) (tagval : ir_vertex -> fieldref -> tagged) (n : vertex) : bool :=
+    match current_vertex q vi with
+    | Panic _ => true
+    | Ok vtx =>
+        forallb (fun p =>
+          let v := g_prop g (v_type vtx) p n in
+          (match statically_required q args vi p with Ok (Some c) => f_mem c v | _ => true end) &&
+          (match dynamically_required q args vi p with
+           | Ok (Some dv) =>
+               if opk_eqb (dv_op dv) GreaterThanOrEqual then true
+               else match tagval vtx (dv_field dv) with
+                    | TSome w => if wf w then
+                                   match cand_from_op (dyn_nr dv) (dv_op dv) (dv_init dv) (TSome w) with
+                                   | Ok k => f_mem k v
+                                   | Panic _ => true
+                                   end
+                                 else true
+                    | TNone => match cand_from_op (dyn_nr dv) (dv_op dv) (dv_init dv) TNone with
+                               | Ok k => f_mem k v
+                               | Panic _ => true
+                               end
+                    end
+           | _ => true
+           end)) (map vf_field (v_filters vtx))
+    end.
+
+  (* destination() of the ResolveEdgeInfo of an edge / a fold (see destination_binding_edge/_fold) *)
+  Definition dest_of_edge (e : ir_edge) : vinfo :=
+    mkVI false (e_from e) (e_to e) (FExcl (e_to e)) (e_optional e) (locally_non_binding e).
+  Definition dest_of_fold (h : fold_hdr) : vinfo :=
+    mkVI false (fo_from h) (fo_to h) (FExcl (fo_to h)) false false.
+
+  (* the tag values of the row being built, as Sem.v defines them *)
+  Definition sem_tagval (vs : list ir_vertex) (ss : list step) (imported : imports) (a : asg) (n : vertex)
+    : ir_vertex -> fieldref -> tagged :=
+    fun vtx field => arg_value g args vs ss imported a (v_vid vtx) (v_type vtx) (Some n) (ATag field).
+
+  Definition hint_pruner : pruner :=
+    mkPr (fun s => hint_keeps (resolve_info (c_root top) false)
+                              (sem_tagval (c_vertices top) (c_steps top) [] (Asg [] []) s) s)
+         (fun vs ss imported e a n => hint_keeps (dest_of_edge e) (sem_tagval vs ss imported a n) n)
+         (fun vs ss imported h a n =>
+            match comp_at q (fo_to h) with
+            | Ok sub => hint_keeps (dest_of_fold h)
+                                   (sem_tagval (c_vertices sub) (c_steps sub) (sub_imports g vs ss imported h a) (Asg [] []) n) n
+            | Panic _ => true
+            end).
+
+  Lemma top_unique' : vids_unique top.
+  Proof. apply top_unique. exact Hwfq. Qed.
+
+  Lemma enter_true_inv vs ss imported a vtx n :
+    enter re g args vs ss imported a vtx (Some n) = true ->
+    match v_from vtx with Some from => g_coerce g from (v_type vtx) n = true | None => True end /\
+    forall f, In f (v_filters vtx) ->
+      filter_passes re (vf_op f) true (g_prop g (v_type vtx) (vf_field f) n)
+        (option_map (arg_value g args vs ss imported a (v_vid vtx) (v_type vtx) (Some n)) (vf_arg f)) = true.
+  Proof.
+    unfold enter. intros H. apply andb_prop in H. destruct H as [H1 H2]. split.
+    - destruct (v_from vtx); auto.
+    - rewrite forallb_forall in H2. exact H2.
+  Qed.
+
+  (* the key step: a vertex that passes the entry test of the hinted vertex agrees with all its hints *)
+  Lemma hint_keeps_sound c vi vtx vs ss imported a n :
+    subcomp c top -> In vtx (c_vertices c) -> current_vertex q vi = Ok vtx ->
+    enter re g args vs ss imported a vtx (Some n) = true ->
+    hint_keeps vi (sem_tagval vs ss imported a n) n = true.
+  Proof.
+    intros Hsub Hin Hcv He. unfold hint_keeps. rewrite Hcv. apply forallb_forall. intros p Hp.
+    destruct (enter_true_inv _ _ _ _ _ _ He) as [Hco Hf].
+    set (v := g_prop g (v_type vtx) p n).
+    assert (Wv : wf v = true) by apply Hgwf.
+    assert (Hn : nullability_respected vtx p v).
+    { intros f Hfi <- Hnu. unfold v. eapply Htyped; eauto. }
+    assert (Hs : static_filters_pass re args vtx p v).
+    { intros f Hfi <- _. unfold v. eapply (filter_passes_static re args); [|exact (Hf f Hfi)].
+      intros x t. reflexivity. }
+    apply andb_true_intro. split.
+    - destruct (statically_required q args vi p) as [[c0|]|] eqn:S; try reflexivity.
+      now destruct (static_hint_sound re q args Hargs vi p c0 vtx v Wv S Hcv Hn Hs).
+    - destruct (dynamically_required q args vi p) as [[dv|]|] eqn:D; try reflexivity.
+      destruct (opk_eqb (dv_op dv) GreaterThanOrEqual) eqn:G; [reflexivity|].
+      assert (Hge : dv_op dv <> GreaterThanOrEqual) by (intros E; rewrite E in G; discriminate).
+      destruct (dynamic_hint_structure re q args Hargs vi p dv vtx D Hcv) as (_ & _ & (f & Hfi & Hfp & Hfo & Hfa & _) & _).
+      specialize (Hf f Hfi). rewrite Hfa, Hfo, Hfp in Hf. cbn [option_map] in Hf. fold v in Hf.
+      unfold sem_tagval.
+      destruct (arg_value g args vs ss imported a (v_vid vtx) (v_type vtx) (Some n) (ATag (dv_field dv))) as [|w] eqn:T.
+      + destruct (cand_from_op (dyn_nr dv) (dv_op dv) (dv_init dv) TNone) as [k|] eqn:K; [|reflexivity].
+        refine (proj2 (dynamic_hint_sound re q args Hargs vi p dv vtx _ TNone k v D Hcv Hge Wv _ Hn Hs Hf K)).
+        intros w E. discriminate.
+      + destruct (wf w) eqn:Ww; [|reflexivity].
+        destruct (cand_from_op (dyn_nr dv) (dv_op dv) (dv_init dv) (TSome w)) as [k|] eqn:K; [|reflexivity].
+        refine (proj2 (dynamic_hint_sound re q args Hargs vi p dv vtx _ (TSome w) k v D Hcv Hge Wv _ Hn Hs Hf K)).
+        intros w' E. injection E as <-. exact Ww.
+  Qed.
+
+  (* hints that reject something come from a binding vertex-info *)
+  Lemma hint_keeps_false_binding vi tv n : hint_keeps vi tv n = false -> non_binding vi = false.
+  Proof.
+    unfold hint_keeps. destruct (current_vertex q vi) as [vtx|]; [|discriminate].
+    intros H. destruct (non_binding vi) eqn:NB; [|reflexivity]. exfalso.
+    rewrite (proj2 (forallb_forall _ _)) in H; [discriminate|].
+    intros p _. destruct (non_binding_no_hints q args vi p p NB) as (S & D & _). now rewrite S, D.
+  Qed.
+
+  Lemma current_vertex_sub c v vi : subcomp c top -> In v (c_vertices c) -> vi_vid vi = v_vid v ->
+    current_vertex q vi = Ok v /\ current_component q vi = Ok c.
+  Proof.
+    intros Hsub Hv E. unfold current_vertex, current_component, comp_at. rewrite E. fold top.
+    rewrite (comp_of_vid_sub top c v top_unique' Hsub Hv). cbn.
+    now rewrite (find_vertex_unique (c_vertices c) v (vids_unique_vertices c top top_unique' Hsub) Hv).
+  Qed.
+
+  Theorem hint_pruner_admissible : admissible re g args hint_pruner q.
+  Proof.
+    split.
+    - (* starting vertices *)
+      intros s K. cbn [pr_start hint_pruner] in K. fold top. destruct top as [root vs ss outs] eqn:Et.
+      rewrite sem_comp_eq. destruct (find_vertex vs root) as [rv|] eqn:F; [|reflexivity].
+      destruct (enter re g args vs ss [] (Asg [] []) rv (Some s)) eqn:E; [exfalso|reflexivity].
+      apply find_vertex_some in F. destruct F as [Fi Fe].
+      assert (Hsub : subcomp (mkComp root vs ss outs) top) by (rewrite Et; constructor).
+      destruct (current_vertex_sub _ rv (resolve_info root false) Hsub Fi (eq_sym Fe)) as [Hcv _].
+      cbn [c_root c_vertices c_steps] in K.
+      rewrite (hint_keeps_sound _ _ rv vs ss [] (Asg [] []) s Hsub Fi Hcv E) in K. discriminate.
+    - intros c Hsub. split.
+      + (* edges *)
+        intros imported e a n tov He Ft K. cbn [pr_edge hint_pruner] in K.
+        pose proof (hint_keeps_false_binding _ _ _ K) as NB. unfold non_binding, dest_of_edge, locally_non_binding in NB.
+        cbn in NB. apply orb_false_iff in NB. destruct NB as [NB1 NB2].
+        split; [assumption|]. split.
+        { destruct (e_rec e) as [r|]; [right|now left]. exists r. split; [reflexivity|].
+          apply N.leb_gt in NB2. lia. }
+        destruct (enter re g args (c_vertices c) (c_steps c) imported a tov (Some n)) eqn:E; [exfalso|reflexivity].
+        apply find_vertex_some in Ft. destruct Ft as [Fi Fe].
+        destruct (current_vertex_sub c tov (dest_of_edge e) Hsub Fi (eq_sym Fe)) as [Hcv _].
+        rewrite (hint_keeps_sound c _ tov _ _ imported a n Hsub Fi Hcv E) in K. discriminate.
+      + (* folds *)
+        intros imported h sub a n Hf K. cbn [pr_fold hint_pruner] in K.
+        assert (Hsub' : subcomp sub top).
+        { eapply subcomp_trans; [|exact Hsub]. destruct c as [r0 vs0 ss0 o0]. econstructor; [exact Hf|constructor]. }
+        assert (FR : fo_to h = c_root sub).
+        { pose proof Hwfq as W. unfold wf_hints_query in W. apply andb_prop in W. destruct W as [_ W].
+          pose proof (fold_roots_ok_sub c top Hsub W) as Wc. destruct c as [r0 vs0 ss0 o0].
+          now destruct (fold_roots_ok_here _ _ _ _ _ _ Wc Hf). }
+        destruct sub as [root vs ss outs] eqn:Es. rewrite sem_comp_eq.
+        destruct (find_vertex vs root) as [rv|] eqn:F; [|reflexivity].
+        match goal with |- (if ?b then _ else _) = _ => destruct b eqn:E end; [exfalso|reflexivity].
+        apply find_vertex_some in F. destruct F as [Fi Fe]. cbn [c_root] in FR.
+        assert (Ev : vi_vid (dest_of_fold h) = v_vid rv) by (cbn; congruence).
+        destruct (current_vertex_sub _ rv (dest_of_fold h) Hsub' Fi Ev) as [Hcv Hcc].
+        unfold current_component in Hcc. cbn [vi_vid dest_of_fold] in Hcc. rewrite Hcc in K.
+        cbn [c_vertices c_steps] in K.
+        rewrite (hint_keeps_sound _ _ rv vs ss _ (Asg [] []) n Hsub' Fi Hcv E) in K. discriminate.
+  Qed.
+
+  (* pruning by the hints of the vertex being produced (static candidates, and dynamic candidates other
+     than `>=`, resolved on the row's tag values) is invisible *)
+  Theorem pruning_by_destination_hints_invisible :
+    sem_pruned re g args hint_pruner q = sem re g args q.
+  Proof. apply pruning_invisible_partial. exact hint_pruner_admissible. Qed.
+End HintPruner.
+
+(* ====================================================================================== *)
+(* Part 7: known defects — witnesses, and the statements outside the classes                *)
+(* ====================================================================================== *)
+Definition no_regex : string -> string -> option bool := fun _ _ => None.
+
+(* ---- F10: `>=` against a tag yields an upper bound ---- *)
+(* full statement (FALSE of the model, as of the code):
+     forall nr init t k v, f_cand_ok init -> f_mem init v = true ->
+       filter_passes re GreaterThanOrEqual true v (Some t) = true ->
+       cand_from_op nr GreaterThanOrEqual init t = Ok k -> f_mem k v = true              *)
+Theorem dynamic_hint_ge_tag_refuted_lemma :
+  exists init w v k,
+    f_cand_ok init = true /\ wf w = true /\ wf v = true /\ f_mem init v = true /\
+    filter_passes no_regex GreaterThanOrEqual true v (Some (TSome w)) = true /\
+    cand_from_op true GreaterThanOrEqual init (TSome w) = Ok k /\ f_mem k v = false.
+Proof.
+  exists (CRange range_full_non_null), (U64 1), (U64 2), (CRange (mkRange Unb (Incl (U64 1)) false)).
+  vm_compute. repeat split; reflexivity.
+Qed.
+
+(* the same on a compiled query (numbers-free version of DESIGN.md's witness, accepted by the real
+   frontend and confirmed on the real engine):
+     query { Thing { id @tag(name: "t") @output link { id @filter(op: ">=", value: ["%t"]) @output(name: "o2") } } } *)
+Definition ty_int_nn : ty := mkTy "Int" 1.
+Definition ty_int : ty := mkTy "Int" 0.
+Definition ty_str : ty := mkTy "String" 0.
+Definition rq_f10 : raw_query :=
+  mkRQ "Thing" [("hi", Null); ("lo", Null)]
+    (RComp 1 [mkV 1 "Thing" None [];
+              mkV 2 "Thing" None [mkVF GreaterThanOrEqual "id" ty_int_nn (Some (ATag (FRContext (mkCF 1 "id" ty_int_nn))))]]
+           [mkE 1 1 2 "link" [] false None] []
+           [("id", mkCF 1 "id" ty_int_nn); ("o2", mkCF 2 "id" ty_int_nn)]) [].
+(* vertex 1 (id 1) links to vertex 2 (id 2) and to itself *)
+Definition ds_f10 : dataset :=
+  mkDS [(1, "Gadget"); (2, "Box")] [(1, [("id", U64 1)]); (2, [("id", U64 2)])]
+       [(1, [("link", [2; 1])]); (2, [("link", [2; 1])])]
+       [("Thing", [1; 2])] [("Thing", ["Box"; "Leaf"; "Gadget"])].
+
+Theorem dynamic_hint_ge_tag_refuted_query :
+  exists q vi dv k,
+    lower_query rq_f10 = Ok q /\ k_ge_tag_hint q = true /\
+    resolve_edge_info_destination q 1 2 1 = Ok vi /\
+    dynamically_required q [] vi "id" = Ok (Some dv) /\
+    (* resolved for the row whose vertex 1 is dataset vertex 1 (tag value 1) *)
+    dyn_resolve q (graph_of_dataset ds_f10) dv (mkCtx (Some 1) [(1, Some 1)] [] [] [] [] None []) = Ok k /\
+    (* neighbour 2 has id 2: the filter `2 >= 1` holds, yet the hint excludes it *)
+    holds no_regex GreaterThanOrEqual (ds_prop ds_f10 "Thing" "id" 2) (U64 1) = true /\
+    f_mem k (ds_prop ds_f10 "Thing" "id" 2) = false /\
+    (* and the row (id = 1, o2 = 2) is a result of the query *)
+    In [("id", U64 1); ("o2", U64 2)] (sem no_regex (graph_of_dataset ds_f10) [] q).
+Proof.
+  do 4 eexists. vm_compute. repeat split; try reflexivity. left. reflexivity.
+Qed.
+
+(* ---- F17: a null tag value panics in Range::with_end / with_start, or in as_slice() for one_of ---- *)
+(* full statement (FALSE): forall dv c, (ctx c has every vertex / fold / imported tag dv refers to) ->
+     exists k, dyn_resolve q g dv c = Ok k                                                     *)
+Theorem dynamic_hint_null_tag_refuted_lemma :
+  (exists s, cand_from_op true LessThan All (TSome Null) = Panic s) /\
+  (exists s, cand_from_op true GreaterThan All (TSome Null) = Panic s) /\
+  (exists s, cand_from_op true OneOf All (TSome Null) = Panic s) /\
+  k_null_tag_hint LessThan Null = true /\ k_null_tag_hint OneOf Null = true.
+Proof. repeat split; eexists; reflexivity. Qed.
+
+(*   query { Thing { score @tag(name: "t") id @output link { score @filter(op: "<", value: ["%t"]) @output(name: "o2") } } }
+   on a dataset where the tagged vertex has no score *)
+Definition rq_f17 : raw_query :=
+  mkRQ "Thing" [("hi", Null); ("lo", Null)]
+    (RComp 1 [mkV 1 "Thing" None [];
+              mkV 2 "Thing" None [mkVF LessThan "score" ty_int (Some (ATag (FRContext (mkCF 1 "score" ty_int))))]]
+           [mkE 1 1 2 "link" [] false None] []
+           [("id", mkCF 1 "id" ty_int_nn); ("o2", mkCF 2 "score" ty_int)]) [].
+
+Theorem dynamic_hint_null_tag_refuted_query :
+  exists q vi dv s,
+    lower_query rq_f17 = Ok q /\
+    resolve_edge_info_destination q 1 2 1 = Ok vi /\
+    dynamically_required q [] vi "score" = Ok (Some dv) /\
+    (* ds_f10's vertices have no score: the tag value is null *)
+    dyn_resolve q (graph_of_dataset ds_f10) dv (mkCtx (Some 1) [(1, Some 1)] [] [] [] [] None []) = Panic s.
+Proof. do 4 eexists. vm_compute. repeat split; reflexivity. Qed.
+
+(* outside K-null-tag-hint resolving never panics (one_of operands are lists or null by typing) *)
+Theorem dynamic_hint_no_panic_outside nr op init w :
+  f_cand_ok init = true -> wf w = true -> dyn_supported_op op = true ->
+  k_null_tag_hint op w = false -> (op = OneOf -> w = Null \/ exists l, w = List l) ->
+  exists k, cand_from_op nr op init (TSome w) = Ok k /\ f_cand_ok k = true.
+Proof.
+  intros Hi Ww Hs Hk Ho. unfold k_null_tag_hint in Hk.
+  apply (cand_from_op_total nr op init w Hi Ww Hs).
+  - intros Hc. rewrite Hc in Hk. cbn in Hk. now rewrite andb_true_r in Hk.
+  - intros ->. destruct (Ho eq_refl) as [->|H]; [discriminate|assumption].
+Qed.
+Theorem dynamic_hint_no_panic_none nr op init :
+  dyn_supported_op op = true -> cand_from_op nr op init TNone = Ok init.
+Proof. destruct op; try discriminate; reflexivity. Qed.
+
+(* the class predicate is what the theorems exclude: without a `>=`-tag filter no dynamic hint has
+   operation `>=` *)
+Lemma all_vertices_sub c top : subcomp c top -> forall v, In v (c_vertices c) -> In v (all_vertices top).
+Proof.
+  induction 1 as [[r vs ss o]|c root vs ss outs h sub Hin Hsub IH]; intros v Hv.
+  - cbn in *. apply in_or_app. now left.
+  - specialize (IH v Hv). cbn. apply in_or_app. right. clear Hv.
+    induction ss as [|[e|h' sub'] r IHr]; cbn in *; [contradiction| |].
+    + destruct Hin as [E|Hin]; [discriminate|auto].
+    + apply in_or_app. destruct Hin as [E|Hin]; [left; injection E as -> ->; assumption|right; auto].
+Qed.
+
+Lemma comp_of_vid_subcomp top : forall vid c, comp_of_vid top vid = Some c -> subcomp c top.
+Proof.
+  induction top as [root vs ss outs IH] using comp_ind'. intros vid c. rewrite comp_of_vid_eq.
+  destruct (find_vertex vs vid); [intros [= <-]; constructor|].
+  intros H. induction ss as [|[e|h sub] r IHr]; cbn in *; [discriminate| |].
+  - inversion IH; subst. destruct (IHr H2 H) as [|]; [constructor|].
+    inversion H0; subst; [constructor|]. econstructor; [right; eassumption|assumption].
+  - inversion IH as [|? ? Hs Hr]; subst. destruct (comp_of_vid sub vid) eqn:C.
+    + injection H as <-. econstructor; [left; reflexivity|]. eapply Hs; eauto.
+    + specialize (IHr Hr H). inversion IHr; subst; [constructor|]. econstructor; [right; eassumption|assumption].
+Qed.
+
+Theorem no_ge_tag_no_ge_hint re q args vi p dv :
+  args_wf args -> k_ge_tag_hint q = false ->
+  dynamically_required q args vi p = Ok (Some dv) -> dv_op dv <> GreaterThanOrEqual.
+Proof.
+  intros Hargs K D E.
+  destruct (current_vertex q vi) as [vtx|s] eqn:Hcv.
+  2:{ unfold dynamically_required in D. destruct (non_binding vi); [discriminate|]. rewrite Hcv in D. discriminate. }
+  destruct (dynamic_hint_structure re q args Hargs vi p dv vtx D Hcv) as (_ & _ & (f & Hfi & Hfp & Hfo & Hfa & _) & _).
+  unfold current_vertex, current_component, comp_at in Hcv.
+  destruct (comp_of_vid (q_comp q) (vi_vid vi)) as [c|] eqn:C; [|discriminate]. cbn in Hcv.
+  apply expect_some_ok in Hcv. apply find_vertex_some in Hcv. destruct Hcv as [Hin _].
+  pose proof (all_vertices_sub c (q_comp q) (comp_of_vid_subcomp _ _ _ C) vtx Hin) as Hall.
+  assert (k_ge_tag_hint q = true); [|congruence].
+  unfold k_ge_tag_hint. apply existsb_exists. exists vtx. split; [assumption|].
+  apply existsb_exists. exists f. split; [assumption|]. unfold ge_tag_filter. now rewrite Hfo, E, Hfa.
+Qed.
+
+(* ---- F11: properties resolved for imported tags / fold-count filter tags are not listed ---- *)
+(* full statement (FALSE): forall q r, wf_hints_query q = true -> In r (property_requests q) ->
+     In (snd r) (required_of q (fst r))                                                        *)
+(*   query { Thing { name @tag(name: "t") id @output link @fold { name @filter(op: "=", value: ["%t"]) id @output(name: "ids") } } } *)
+Definition rq_f11a : raw_query :=
+  mkRQ "Thing" [("hi", Null); ("lo", Null)]
+    (RComp 1 [mkV 1 "Thing" None []] []
+       [RFold (mkFH 1 1 2 "link" [] [FRContext (mkCF 1 "name" ty_str)] [] [])
+              (RComp 2 [mkV 2 "Thing" None [mkVF Equals "name" ty_str (Some (ATag (FRContext (mkCF 1 "name" ty_str))))]]
+                     [] [] [("ids", mkCF 2 "id" ty_int_nn)])]
+       [("id", mkCF 1 "id" ty_int_nn)]) [].
+(*   query { Thing { score @tag(name: "t") id @output
+                     link @fold @transform(op: "count") @filter(op: ">=", value: ["%t"]) { id @output(name: "ids") } } } *)
+Definition rq_f11b : raw_query :=
+  mkRQ "Thing" [("hi", Null); ("lo", Null)]
+    (RComp 1 [mkV 1 "Thing" None []] []
+       [RFold (mkFH 1 1 2 "link" [] [] [] [mkPF GreaterThanOrEqual (Some (ATag (FRContext (mkCF 1 "score" ty_int))))])
+              (RComp 2 [mkV 2 "Thing" None []] [] [] [("ids", mkCF 2 "id" ty_int_nn)])]
+       [("id", mkCF 1 "id" ty_int_nn)]) [].
+
+Theorem requested_subset_required_imported_refuted :
+  exists q, lower_query rq_f11a = Ok q /\ wf_hints_query q = true /\
+            In (1, "name") (property_requests q) /\ ~ In "name" (required_of q 1) /\
+            k_imported_tag_not_required q = true /\ k_count_filter_tag_not_required q = false /\
+            (* the Exec-level log of a run contains the request *)
+            (exists rows evs, trace_query no_regex (graph_of_dataset ds_f10) [] q = Ok (rows, evs) /\
+                              In (EProp 1 "name") evs).
+Proof.
+  eexists. split; [reflexivity|]. split; [reflexivity|]. split; [vm_compute; tauto|].
+  split; [intros H; apply mem_str_In in H; vm_compute in H; discriminate|].
+  split; [reflexivity|]. split; [reflexivity|].
+  do 2 eexists. split; [vm_compute; reflexivity|]. cbn. tauto.
+Qed.
+
+Theorem requested_subset_required_count_tag_refuted :
+  exists q, lower_query rq_f11b = Ok q /\ wf_hints_query q = true /\
+            In (1, "score") (property_requests q) /\ ~ In "score" (required_of q 1) /\
+            k_count_filter_tag_not_required q = true /\ k_imported_tag_not_required q = false /\
+            (exists rows evs, trace_query no_regex (graph_of_dataset ds_f10) [] q = Ok (rows, evs) /\
+                              In (EProp 1 "score") evs).
+Proof.
+  eexists. split; [reflexivity|]. split; [reflexivity|]. split; [vm_compute; tauto|].
+  split; [intros H; apply mem_str_In in H; vm_compute in H; discriminate|].
+  split; [reflexivity|]. split; [reflexivity|].
+  do 2 eexists. split; [vm_compute; reflexivity|]. cbn. tauto.
+Qed.
